@@ -411,12 +411,14 @@ func (r *rw) lowerSelect(s *ast.SelectStmt) ast.Stmt {
 		case *ast.ExprStmt:
 			u := unparen(m.X).(*ast.UnaryExpr)
 			chn := r.name("c")
+			r.xtype[chn] = r.typeOf(u.X)
 			pre = append(pre, define(chn, u.X))
 			pre = append(pre, &ast.ExprStmt{X: r.vs("AddRecv", sel, chn)})
 			cl.Body = append([]ast.Stmt{&ast.ExprStmt{X: r.vs("Got", sel, chn)}}, cc.Body...)
 		case *ast.AssignStmt:
 			u := unparen(m.Rhs[0]).(*ast.UnaryExpr)
 			chn := r.name("c")
+			r.xtype[chn] = r.typeOf(u.X)
 			pre = append(pre, define(chn, u.X))
 			pre = append(pre, &ast.ExprStmt{X: r.vs("AddRecv", sel, chn)})
 			fn := "Got"
@@ -466,6 +468,7 @@ func (r *rw) lowerRangeMap(x *ast.RangeStmt, m *types.Map) ast.Stmt {
 		fatal("%s: range over map with key type %s: iteration order cannot be made deterministic", r.fset.Position(x.Pos()), m.Key())
 	}
 	mv := r.name("m")
+	r.xtype[mv] = m
 	key := x.Key
 	if key == nil || isBlank(key) {
 		key = r.name("k")
